@@ -33,6 +33,11 @@ func propC17(c *Ctx, r *Report) {
 	r.Clauses = append(r.Clauses, guardAgreeClause)
 	c.runGuardAgree(r, "guard.agree", inPkgs("msl", "hlsl", "glsl", "spirv"))
 	r.floor("guard.agree", 4)
+	r.Clauses = append(r.Clauses, accumClause)
+	c.runAccumLazyInit(r, "accum.lazyinit", func(string) bool { return true })
+	r.floor("accum.lazyinit", 4)
 	r.floor("backends.Block.walkers", 10)
 	r.floor("setters", 2)
 }
+
+const accumClause = "order-independent accumulation (E29): a variable created lazily (`if v == nil { v = ... }`) inside a loop over attributes / items collects fields from several iterations; no other assignment inside that loop replaces it unconditionally, so @interpolate / @blend_src / @binding survive whatever order the attributes are written in"
